@@ -21,7 +21,9 @@ import (
 	"fmt"
 	"os"
 	"regexp"
+	"strconv"
 	"strings"
+	"unicode/utf8"
 
 	"github.com/cockroachdb/redact"
 )
@@ -370,4 +372,115 @@ func (e *env) renderRuntimePanic(pv *Val, ctx string) (s string) {
 		val = redact.Unsafe(val)
 	}
 	return string(redact.Sprint(val))
+}
+
+// ---- conservation: "no call loses output that was already written" ----------
+//
+// For payloads that need no escaping (valid UTF-8, no marker runes) the
+// output with markers stripped must be exactly the concatenation of what
+// was written, whatever the sequence of safe/unsafe writes and whatever
+// runes meet at the seams between them.
+
+func init() {
+	opKinds["conserve"] = execConserve
+	opKinds["runesweep"] = execRuneSweep
+}
+
+func pieceText(st *Step) (string, bool) {
+	switch st.A {
+	case "ss", "us", "sbs", "ubs", "wr", "wS":
+		return string(st.S), true
+	case "sr", "ur", "wR":
+		r := rune(st.I)
+		if !utf8.ValidRune(r) {
+			r = utf8.RuneError
+		}
+		return string(r), true
+	case "sy", "uy", "wb":
+		return string([]byte{byte(st.I)}), true
+	case "si", "su":
+		return strconv.FormatInt(st.I, 10), true
+	}
+	return "", false
+}
+
+func execConserve(e *env, op *Op, out *Outcome) {
+	var want strings.Builder
+	for i := range op.S {
+		if t, ok := pieceText(&op.S[i]); ok {
+			want.WriteString(t)
+		}
+	}
+	var res Outcome
+	if op.N == 1 {
+		res = e.execOp(&Op{K: "sprintfn", S: op.S})
+	} else {
+		res = e.execOp(&Op{K: "builder", S: op.S})
+	}
+	out.Out, out.Panic = res.Out, res.Panic
+	if e.t != nil {
+		e.stats.Extra["c11_conservation_checked"]++
+	}
+	if res.Panic != "" {
+		out.Checks = append(out.Checks, "C11/call-panicked#conserve: "+res.Panic)
+		return
+	}
+	if got := redactableStrip(res.Out); got != want.String() {
+		out.Checks = append(out.Checks, fmt.Sprintf("C11/written-output-lost#conserve: the writes add up to %q but the output, markers stripped, is %q (full output %q)", clip(want.String()), clip(got), clip(res.Out)))
+	}
+}
+
+// execRuneSweep walks a contiguous range of rune values, each written
+// in several seam situations, and checks conservation for each.
+func execRuneSweep(e *env, op *Op, out *Outcome) {
+	start, n := rune(op.N), 256
+	if len(op.A) > 0 {
+		n = int(op.A[0].I)
+	}
+	var bad []string
+	note := func(r rune, what, got, want string) {
+		if len(bad) < 3 {
+			bad = append(bad, fmt.Sprintf("rune %#x %s: stripped output %q, want %q", r, what, got, want))
+		}
+	}
+	for r := start; r < start+rune(n); r++ {
+		enc := r
+		if !utf8.ValidRune(r) {
+			enc = utf8.RuneError
+		}
+		txt := string(enc)
+		if txt == mStart || txt == mEnd {
+			txt = "?"
+		}
+		func() {
+			defer func() {
+				if x := recover(); x != nil {
+					bad = append(bad, fmt.Sprintf("rune %#x: call panicked: %v", r, x))
+				}
+			}()
+			var sb redact.StringBuilder
+			sb.SafeString("a")
+			sb.SafeRune(redact.SafeRune(r))
+			sb.UnsafeString("x")
+			sb.UnsafeRune(r)
+			sb.SafeString("b")
+			sb.UnsafeRune(r)
+			sb.UnsafeRune(r)
+			sb.SafeRune(redact.SafeRune(r))
+			if got, want := redactableStrip(string(sb.RedactableString())), "a"+txt+"x"+txt+"b"+txt+txt+txt; got != want {
+				note(r, "in a StringBuilder", got, want)
+			}
+			s := string(redact.Sprintf("%c|%s", r, string(enc)+"z"))
+			if got, want := redactableStrip(s), txt+"|"+txt+"z"; got != want {
+				note(r, "through Sprintf", got, want)
+			}
+		}()
+	}
+	if e.t != nil {
+		e.stats.Extra["c11_runes_swept"] += n
+	}
+	out.Out = fmt.Sprintf("swept %#x..%#x", start, start+rune(n)-1)
+	for _, b := range bad {
+		out.Checks = append(out.Checks, "C11/written-output-lost#runesweep: "+b)
+	}
 }
